@@ -124,10 +124,11 @@ theorem stream_preserves_frames (msgs : List (Nat × Bytes)) (hv : ∀ m ∈ msg
   rw [h1]
 
 
-/-- regenerated: the relay reader drops above 1600 bytes and reads into a buffer one byte larger (so a
-    1601-byte datagram is recognised as oversize instead of being cut); the default inbound MTU is 1600 -/
+/-- regenerated: the relay reader drops above 1600 bytes and reads into a buffer that is larger than that (so a
+    1601-byte datagram is recognised as oversize instead of being cut) — in fact as large as the largest UDP payload, so that
+    no transport has to cut a read short, which some report as an error; the default inbound MTU is 1600 -/
 theorem relay_buffer_regenerated :
-    Gen.Consts.relay_dropAbove = 1600 ∧ Gen.Consts.relay_bufferSize = Gen.Consts.relay_dropAbove + 1 ∧
+    Gen.Consts.relay_dropAbove = 1600 ∧ Gen.Consts.relay_dropAbove < Gen.Consts.relay_bufferSize ∧ Gen.Consts.relay_bufferSize = 65535 ∧
     Gen.Consts.allocation_rtpMTU = 1600 ∧ Gen.Consts.default_inboundMTU = 1600 := by decide
 
 end Turn.C05
